@@ -116,6 +116,64 @@ DECLARED = {  # frozen: constructor argument -> (bits, signed); see Lang/MsgCode
 }
 
 
+def subroutine_object_history(ctx, t, n):
+    """A SubroutineMessage built from a Subroutine OBJECT: message 1, change the object in place (app id setter,
+    instructions[i] = ..., append), message 2 from the same object.  The second message must carry the object's
+    current content (a serialisation cached on the object would show here)."""
+    import codec_impl as ci
+    from netqasm.lang.parsing import deserialize
+    M = t["M"]
+    rng = ctx.rng
+    impl = ci.Impl(ctx.repo)
+    rows = impl.t["flavours"]["vanilla"]["rows"]
+    done = 0
+    for _ in range(n):
+        body = [ci.gen_in_range_instr(rng, rng.choice(rows)) for _ in range(rng.randint(1, 6))]
+        app = rng.choice([0, 1, 255, 65535, rng.randint(0, 65535)])
+        try:
+            sub = impl.Subroutine(instructions=[impl.build_instr(impl.rows["vanilla"][nm], lv) for nm, lv in body],
+                                  netqasm_version=(1, 0), app_id=app)
+            m1 = M.SubroutineMessage(subroutine=sub)
+            bytes(m1)
+        except Exception:
+            continue
+        muts = []
+        for _k in range(rng.randint(1, 3)):
+            kind = rng.choice(["app", "replace", "append"])
+            if kind == "app":
+                app = rng.choice([0, 7, 65535, rng.randint(0, 65535)])
+                sub.app_id = app
+                muts.append(["app_id", app])
+            elif kind == "replace":
+                i = rng.randrange(len(body))
+                new = ci.gen_in_range_instr(rng, rng.choice(rows))
+                sub.instructions[i] = impl.build_instr(impl.rows["vanilla"][new[0]], new[1])
+                body[i] = new
+                muts.append(["instructions[i]=", i, list(new)])
+            else:
+                new = ci.gen_in_range_instr(rng, rng.choice(rows))
+                sub.instructions.append(impl.build_instr(impl.rows["vanilla"][new[0]], new[1]))
+                body.append(new)
+                muts.append(["append", list(new)])
+        done += 1
+        ctx.note_case(("subroutine-object-history", str(body), str(muts)))
+        try:
+            m2 = M.SubroutineMessage(subroutine=sub)
+            back = M.deserialize_host_msg(bytes(m2))
+            inner = deserialize(bytes(back.subroutine))
+            got = (inner.app_id, [impl.view_instr(i) for i in inner.instructions])
+        except Exception as e:  # noqa
+            got = f"raises {type(e).__name__}"
+        want = (app, [(nm, list(lv)) for nm, lv in body])
+        if got != want:
+            ctx.violation("a SubroutineMessage built from a Subroutine object that was changed in place after an earlier "
+                          "message does not carry the object's current content",
+                          dict(direction="host", message_class="SubroutineMessage", changes=muts,
+                               current_content=[want[0], [[a, b] for a, b in want[1]]],
+                               decoded=got if isinstance(got, str) else [got[0], [[a, list(b)] for a, b in got[1]]]))
+    ctx.coverage["subroutine_object_histories"] = done
+
+
 def constructor_oracle(ctx, t, n):
     """Build messages through their constructors with values from the DECLARED ranges (not the
     regenerated ones), serialise, deserialise from bytes and from a reused writable buffer."""
@@ -200,6 +258,10 @@ def run(ctx):
                           dict(direction=direction, message_class=cls.__name__, deserialises_as=got), key=None)
     n = 12 if ctx.tier == "quick" else 400
     constructor_oracle(ctx, t, 6 if ctx.tier == "quick" else 200)
+    try:
+        subroutine_object_history(ctx, t, 40 if ctx.tier == "quick" else 1500)
+    except ImportError:
+        pass
     msgs = gen_messages(ctx, t, n)
     cases = {"host": [], "ret": []}
     meta = {"host": [], "ret": []}
